@@ -13,6 +13,8 @@ open SciVerif.Generated
 theorem generated_run_sem_good_c05 : Graph.good runSem := by decide
 theorem generated_proc_sem_good_c05 : Proc.good procSem := by decide
 theorem generated_slot_locked_c05 : slotSem.locked = true := by decide
+/-- hypothesis `cores v ≤ max` of the network-with-slots theorems: `Process.Run` rejects larger requests -/
+theorem generated_cores_checked_c05 : coresCheckFirst = true := by decide
 
 /-- the main loop runs while tasks may still arrive or tasks are in flight; out-ports are closed by
 a deferred call, i.e. only when the loop has been left -/
@@ -39,6 +41,7 @@ theorem generated_sink_waits :
 theorem c05_on_source (ls : List Proc.Label) (s : Proc.PSt)
     (h : Proc.run procSem Proc.init ls = some s) (hexit : s.started = []) : s.forwarded = s.accepted :=
   C05.c05_process_exit_all_forwarded procSem generated_proc_sem_good_c05 ls s h hexit
+
 
 
 
@@ -77,6 +80,7 @@ end SciVerif.Tie
 #print axioms SciVerif.Tie.generated_run_sem_good_c05
 #print axioms SciVerif.Tie.generated_proc_sem_good_c05
 #print axioms SciVerif.Tie.generated_slot_locked_c05
+#print axioms SciVerif.Tie.generated_cores_checked_c05
 #print axioms SciVerif.Tie.generated_loop_and_close
 #print axioms SciVerif.Tie.generated_done_last
 #print axioms SciVerif.Tie.generated_sink_waits
